@@ -246,10 +246,11 @@ def on_placement(p, r, exc, acc):
 # ------------------------------------------------------------------ an included template is a chain of its own; body() arguments
 def extras_sources(f):
     inc = "I[" + ('<%block name="b">IB</%block>' if f["included_declares_b"] else "-") + " parent=${'set' if context.get('parent') else 'unset'}]"
-    base = '<%page args="x=\'dx\'"/>' if False else ""
-    base = "BASE(" + ('<%block name="b">B1</%block>' if f["base_declares_b"] else "-") + " " + \
+    # <%page> signatures that take their own ** argument (then no `pageargs` exists in that body)
+    star = f.get("page_double_star")
+    base = ('<%page args="**bkw"/>' if star else "") + "BASE(" + ('<%block name="b">B1</%block>' if f["base_declares_b"] else "-") + " " + \
         ("${next.body(x='bx')}" if f["body_argument"] else "${next.body()}") + (' <%include file="inc"/>' if f["include_in"] == "base" else "") + ")"
-    derived = '<%inherit file="base"/><%page args="x=\'dx\'"/>' + (('<%block name="b"' + (' buffered="True"' if f.get("override_is_buffered") else "") + '>B0</%block>') if f["derived_overrides_b"] else "") + \
+    derived = '<%inherit file="base"/><%page args="x=\'dx\'' + (", **dkw" if star else "") + '"/>' + (('<%block name="b"' + (' buffered="True"' if f.get("override_is_buffered") else "") + '>B0</%block>') if f["derived_overrides_b"] else "") + \
         "D(x=${x}" + (' <%include file="inc"/>' if f["include_in"] == "derived" else "") + ")"
     return {"inc": inc, "base": base, "derived": derived}
 
@@ -279,7 +280,7 @@ def extras_case(LKm, f):
 
 
 def h_extras(p):
-    f = {k: bool(p.choose(2, k)) for k in ("included_declares_b", "base_declares_b", "derived_overrides_b", "body_argument", "x_in_context", "override_is_buffered")}
+    f = {k: bool(p.choose(2, k)) for k in ("included_declares_b", "base_declares_b", "derived_overrides_b", "body_argument", "x_in_context", "override_is_buffered", "page_double_star")}
     f["include_in"] = ["derived", "base"][p.choose(2, "include_in")]
     return dict(f=f, got=extras_case(LK, f))
 
@@ -380,7 +381,7 @@ def run(check, tier):
     D = {"quick": 2, "thorough": 3}[tier]
     jobs.append(("C06-placement", h_placement(D), on_placement, "named block under up to %d wrappers, with and without a duplicate declaration" % D,
                  dict(depth=D, wrappers=list(WRAP)), ("ran",)))
-    jobs.append(("C06-extras", h_extras, on_extras, "include inside an inheritance chain; body() arguments", dict(flags=6), ("ran",)))
+    jobs.append(("C06-extras", h_extras, on_extras, "include inside an inheritance chain; body() arguments", dict(flags=7), ("ran",)))
     for j in jobs:
         driver.register(j[0], j[1], j[2])
     cands = []
